@@ -26,7 +26,10 @@ def gen_script(rng, model, name, thorough):
             x = c05.random_position(rng, model, name)                    # large jump
         pos.append(x)
         src = None if (k == 0 or rng.random() < 0.2) else int(rng.integers(0, k))   # interleaved "trajectories"
-        ops.append((k, [float(v) for v in x], src))
+        # how the new point is requested: on the shared model object (trajectory idiom), or on the earlier result itself
+        # (`elec = elec.update(x, elec)`, the idiom of mudslide/surface.py)
+        how = "chained" if (src is not None and rng.random() < 0.35) else "model"
+        ops.append((k, [float(v) for v in x], src, how))
     return ops
 
 
@@ -49,9 +52,19 @@ def oracle_script(args):
     N = model.nstates()
     results, frozen = [], []
     problems = []
-    for k, x, src in [tuple(o) for o in args["ops"]]:
+    pre = None
+    if args.get("precompute") is not None:
+        # somebody evaluated the shared model object directly before the trajectories started
+        model.compute(np.array(args["precompute"], dtype=np.float64))
+        pre = _accessors(model, N)
+    for op in [tuple(o) for o in args["ops"]]:
+        k, x, src = op[:3]
+        how = op[3] if len(op) > 3 else "model"
         x = np.array(x, dtype=np.float64)
-        el = model.update(x, electronics=results[src] if src is not None else None)
+        if how == "chained" and src is not None:
+            el = results[src].update(x, electronics=results[src])
+        else:
+            el = model.update(x, electronics=results[src] if src is not None else None)
         # (a)
         if src is not None and spec.get("representation") != "diabatic":
             ov = np.sum(np.asarray(el._reference) * np.asarray(frozen[src][0]["_reference"]), axis=0)
@@ -68,6 +81,10 @@ def oracle_script(args):
         results.append(el)
         frozen.append((_snapshot(el), _accessors(el, N)))
         # (c) earlier results untouched
+        if pre is not None:
+            now = _accessors(model, N)
+            if any(not np.array_equal(pre[f], now[f]) for f in pre):
+                problems.append("computing point %d changed what the directly evaluated model object returns" % k)
         for j in range(len(results) - 1):
             snap, acc = frozen[j]
             now = _snapshot(results[j])
@@ -116,9 +133,13 @@ def run(ctx):
         if name == "shin-metiu":
             ops = ops[:6]
         a = {"spec": spec, "ops": [list(o) for o in ops]}
+        if i % 3 == 2:
+            a["precompute"] = [float(v) for v in c05.random_position(rng, model, name)]
+            ctx.count("scripts_with_direct_compute_first")
+        ctx.count("chained_updates", sum(1 for o in ops if o[3] == "chained"))
         ok, obs, req, text = oracle_script(a)
         inter = any(o[2] is not None and o[2] != o[0] - 1 for o in ops)
-        ctx.case((name, model.nstates(), len(ops) // 5, inter) if (model.nstates() >= 3 or inter) else None,
+        ctx.case((name, model.nstates(), len(ops) // 5, inter, "precompute" in a) if (model.nstates() >= 3 or inter) else None,
                  {"op": "update-script", "model": name, "ops": [list(o) for o in ops[:5]]})
         ctx.count("scripts:" + name)
         ctx.count("updates", len(ops))
